@@ -44,7 +44,7 @@ def sites(repo):
     for d, _, fs in os.walk(root):
         for f in fs:
             rel = os.path.relpath(os.path.join(d, f), root)
-            if not f.endswith(".rs") or f == "tests.rs" or rel.startswith("test_utils") or "nike" in rel or "kem" in rel:
+            if not f.endswith(".rs") or f == "tests.rs" or rel.startswith("test_utils") or rel.endswith("p256.rs") or (os.environ.get("SWEEP_LEAVES") != "1" and ("nike" in rel or "kem" in rel)):
                 continue
             lines = open(os.path.join(d, f)).read().split("\n")
             in_test = False
